@@ -13,6 +13,8 @@ PROP = {
         "Sonic.Props.C02.C02_monitor_accepts_model",
         "Sonic.Props.C02.C02_accepted_reads_are_the_stream",
         "Sonic.Props.C02.C02_accepted_writes_are_the_wire",
+        "Sonic.Props.C02.C02_read_would_block_irrelevant",
+        "Sonic.Props.C02.C02_write_would_block_irrelevant",
         "Sonic.Props.C02.readOp_spec",
         "Sonic.Props.C02.writeOp_spec",
     ],
